@@ -499,6 +499,11 @@ class RedeemScript(Script):
         quorum_m = op_code_to_number(self.commands[0])
         # 3 because quorum_m, OP_CHECKMULTISIG, and bitcoin off-by-one error
         quorum_n = len(self.commands) - 3
+        # it has to be exactly OP_m <n pubkeys> OP_n OP_CHECKMULTISIG
+        if self.commands[-2] != number_to_op_code(quorum_n) or not all(
+            isinstance(command, bytes) for command in self.commands[1:-2]
+        ):
+            raise ValueError(f"Not a standard p2sh multisig: {self}")
         return quorum_m, quorum_n
 
     def signing_pubkeys(self):
@@ -610,6 +615,12 @@ class WitnessScript(Script):
 
         quorum_m = OP_CODE_NAMES[self.commands[0]].split("OP_")[1]
         quorum_n = OP_CODE_NAMES[self.commands[-2]].split("OP_")[1]
+
+        # it has to be exactly OP_m <n pubkeys> OP_n OP_CHECKMULTISIG
+        if len(self.commands) != int(quorum_n) + 3 or not all(
+            isinstance(command, bytes) for command in self.commands[1:-2]
+        ):
+            raise ValueError(f"Not a standard multisig witness script: {self}")
 
         return int(quorum_m), int(quorum_n)
 
